@@ -174,6 +174,16 @@ CHECKS = {
         "alive at any connect attempt, and after a server close frame or app.close() no further attempt may be made. Runs with the built-in loop and with an external dispatcher (rel surface).",
         "Trusted: simkit virtual clock; FakeRel models rel's documented surface only; ping timeout / reset are not generated for the external loop (they escape into third-party code).",
     ),
+    "C11": (
+        "exploration",
+        "exhaustive enumeration of a TLS configuration product against real TLS endpoints on loopback (committed fixture certificates), differential against a reference decision derived from the documented semantics, plus wire-level observations (first bytes, SNI, CONNECT)",
+        "About 3100 configurations (cert_reqs x check_hostname x trust source x server_hostname x CA-bundle environment x URL x "
+        "direct/proxied x three server certificates) are each run as a real connect() against real TLS/plain/proxy endpoints; the "
+        "outcome must equal the reference decision, a rejected peer must never have decrypted an HTTP request, wss streams must be TLS "
+        "from the first byte (also inside a CONNECT tunnel), ws streams must be plain, and the SNI must be the origin / server_hostname.",
+        "Trusted: Python ssl / OpenSSL of the image as the TLS peer; fixture PKI under fixtures/tls; system trust store does not contain the test CAs; "
+        "wall-clock socket timeouts are reported as inconclusive (exit 2).",
+    ),
 }
 
 PENDING_REASON = "check not built yet in this work-in-progress commit (will be claimed once its generator/oracle is committed)"
